@@ -335,12 +335,21 @@ public:
   // sendRawBytes sees a null transport / zero session and no-ops — there is no
   // torn send. So the state-check-then-act here is not a TOCTOU bug.
 
+  // Data-after-close prevention (RFC 6455 5.5.1): once a CLOSE frame has been
+  // sent on this connection no further data frame may follow it. _closeSent is
+  // set, and every frame is handed to the transport, under _sendMutex, so the
+  // closeSent check in sendText/sendBinary/sendPing is atomic with the send
+  // w.r.t. sendClose (same scheme as WebSocketServer::_wsMutex). _sendMutex is
+  // taken before _transportMutex (inside sendRawBytes) and never the other way.
+
   void sendText(const std::string& text)
   {
     if (_state.load() != WebSocketState::CONNECTED) return;
     auto frame = WebSocketFrame::makeText(text);
     generateMaskKey(frame.maskKey);
     auto wire = frame.serialize(true); // client MUST mask
+    std::lock_guard<std::mutex> sendLock(_sendMutex);
+    if (_closeSent) return; // drop: a CLOSE frame is already on the wire
     sendRawBytes(wire.data(), wire.size());
   }
 
@@ -350,6 +359,8 @@ public:
     auto frame = WebSocketFrame::makeBinary(data);
     generateMaskKey(frame.maskKey);
     auto wire = frame.serialize(true);
+    std::lock_guard<std::mutex> sendLock(_sendMutex);
+    if (_closeSent) return; // drop: a CLOSE frame is already on the wire
     sendRawBytes(wire.data(), wire.size());
   }
 
@@ -359,6 +370,8 @@ public:
     auto frame = WebSocketFrame::makePing(payload);
     generateMaskKey(frame.maskKey);
     auto wire = frame.serialize(true);
+    std::lock_guard<std::mutex> sendLock(_sendMutex);
+    if (_closeSent) return; // drop: a CLOSE frame is already on the wire
     sendRawBytes(wire.data(), wire.size());
   }
 
@@ -371,6 +384,8 @@ public:
     auto frame = WebSocketFrame::makeClose(code, reason);
     generateMaskKey(frame.maskKey);
     auto wire = frame.serialize(true);
+    std::lock_guard<std::mutex> sendLock(_sendMutex);
+    _closeSent = true;
     sendRawBytes(wire.data(), wire.size());
   }
 
@@ -547,6 +562,10 @@ private:
     _upgradeComplete.store(false);
     _closeEchoed.store(false); // re-arm the one-shot CLOSE echo for this connection
     _protocolFailed.store(false);
+    {
+      std::lock_guard<std::mutex> sendLock(_sendMutex);
+      _closeSent = false; // fresh connection: no CLOSE frame sent yet
+    }
 
     // Register the global callbacks on the LOCAL transport. Each weak-captures
     // the client (NEVER an owning shared_ptr<Transport> of its own _transport —
@@ -1244,6 +1263,9 @@ private:
   // Set when an inbound frame header was a protocol error / over the size limit:
   // the connection has been failed and further input is discarded. Reset per connection.
   std::atomic<bool> _protocolFailed{false};
+  // Serialises "check _closeSent + hand a frame to the transport" (see sendText).
+  std::mutex _sendMutex;
+  bool _closeSent{false}; // _sendMutex; a CLOSE frame was sent on this connection
 
   // Fragment reassembly (protected by _dataMutex)
   std::vector<std::uint8_t> _fragmentBuffer;
